@@ -1,7 +1,7 @@
 (* Extraction of the executable model for the correspondence check.
    ExtrOcamlBasic only: N, Z, positive, nat stay the extracted inductives. *)
 From Coq Require Import Extraction ExtrOcamlBasic.
-From RL Require Import UData Uax29 Utf8 History HistFile Direct.
+From RL Require Import UData Uax29 Utf8 History HistFile Direct Completion.
 
 Extraction Blacklist List String Int.
 
@@ -13,4 +13,6 @@ Extraction "model.ml"
   (* history file *)
   w_run w_init save_bytes load_from f_new_cfg f_entries
   (* direct input *)
-  direct_all bracket_validator apply_bs_impl apply_bs.
+  direct_all bracket_validator apply_bs_impl apply_bs
+  (* completion *)
+  complete_path longest_common_prefix unescape escape extract_word find_unclosed_quote.
